@@ -188,7 +188,7 @@ Lemma dot_PK K p F : dot (PK K p) F = dot p (fun k => dot (G K k) F).
 Proof.
   unfold PK. rewrite dot_pdot by apply wf_nil. simpl. rewrite (dot_perm _ _ _ (sort_asc_perm p)). ring.
 Qed.
-Lemma wf_PK K p : wf (PK K p). Proof. apply wf_pdot. apply wf_nil. Qed.
+Lemma wf_PK K p : wf (PK K p). Proof. unfold PK. apply (wf_pdot K (sort_asc p) []). apply wf_nil. Qed.
 Lemma PK_deq K p p' : deq p p' -> deq (PK K p) (PK K p').
 Proof. intros H F. rewrite !dot_PK. apply H. Qed.
 
@@ -307,7 +307,7 @@ Proof.
   - injection Er as <-. split; assumption.
   - remember (q_at_step t (Some acc) e) as s1 eqn:Es1. unfold q_at_step in Es1.
     destruct (q_zpow t (- fst e)) as [w|] eqn:Ew; [|subst s1; rewrite fold_none in Er; discriminate].
-    subst s1. apply (IH _ r); [apply fr_wf_add| |exact Er].
+    subst s1. apply (IH (q_add acc (q_mul (q_const (snd e)) w)) r); [apply fr_wf_add| |exact Er].
     cbn [q_add q_mul q_const fst snd]. apply pmul_nonzero; [apply Wacc|apply wf_pmul|exact Hacc|].
     apply pmul_nonzero; [apply wf_pconst|apply (q_zpow_wf t _ w Wt Ew)|apply (wf_pconst_nz 0)|
       apply (q_zpow_den_nz t _ w Wt Hn Hd Ew)].
@@ -342,7 +342,7 @@ Proof.
   intros Rf Rg Ht Eh Eu Ev Hv.
   pose proof Rg as (_ & Wt & Hdt & _).
   destruct t as [N D]. cbn [fst snd] in Ht, Hdt. pose proof Wt as [WN WD]. cbn [fst snd] in WN, WD.
-  destruct (q_at_some N D Ht (fnum f)) as (u' & Eu'). destruct (q_at_some N D Ht (fden f)) as (v' & Ev').
+  destruct (q_at_some N D WN Ht (fnum f)) as (u' & Eu'). destruct (q_at_some N D WN Ht (fden f)) as (v' & Ev').
   pose proof (fsubst_den_nz f g (N, D) h v' Rg Eh Ev') as Hv'.
   pose proof (R_fsubst f g (N, D) h u' v' Rg Eh Eu' Ev' Hv') as R1.
   destruct (q_at_ok (N, D) _ u Wt Ht Hdt Eu) as [Wu Hu]. destruct (q_at_ok (N, D) _ v Wt Ht Hdt Ev) as [Wv _].
